@@ -538,6 +538,9 @@ func failsWhereItFailed(c *Ctx, id, key string, fn *ssa.Function) int {
 			if deadBlock(in2.Block()) || !errGuard(in2.Block(), false, func(v ssa.Value) bool { return v == e }) {
 				return
 			}
+			if callsNoReturn(in2) {
+				consequence = true
+			}
 			switch x := in2.(type) {
 			case *ssa.Panic:
 				consequence = true
@@ -579,7 +582,7 @@ func parseFailures(c *Ctx, id string) {
 			if ers := errResults(call); len(ers) > 0 {
 				e := ers[0]
 				allInstrs(f, func(in2 ssa.Instruction) {
-					if _, isP := in2.(*ssa.Panic); isP && errGuard(in2.Block(), false, func(v ssa.Value) bool { return v == e }) {
+					if isPanicLike(in2) && errGuard(in2.Block(), false, func(v ssa.Value) bool { return v == e }) {
 						fatal = true
 					}
 				})
